@@ -335,7 +335,9 @@ int main(int argc, char **argv) {
         ColoquinteParameters p(1 + (int)(k % 9), 7);
         Value rs = vt::ev("Reset");
         rs.set("run", k).set("scen", "leg").set("gseed", k).set("pseed", 0).set("explicit", true).set("effort", 1 + (int)(k % 9));
-        rs.set("withCb", true).set("params", vg::paramsToJson(p)).set("circ", b["circ"]).set("wl", 0);
+        Value pj = vg::paramsToJson(p);
+        if (b.has("impl")) pj.set("impl", b["impl"]);   // what the implementation-shaped specification predicts (LegalizeImpl.Result)
+        rs.set("withCb", true).set("params", pj).set("circ", b["circ"]).set("wl", 0);
         vt::emit(rs);
         vt::forked((int)k, timeout, errPath, [&] { scenario("leg", (int)k, base, p, true); });
         continue;
